@@ -1,7 +1,3 @@
 package main
 
 func runGround(w *World, which string) []*FnResult { return nil }
-
-func tryReplay(w *World, prop string, o *Obligation, results []*FnResult) *Replay { return nil }
-
-func rerunReplay(rf *replayFile) int { return 1 }
